@@ -376,7 +376,7 @@ def run(ctx):
             d.act(a)
     nwalk = len(walks)
     # 3. code -> spec: random histories
-    nh = ctx.pick(150, 4000)
+    nh = ctx.pick(150, 3000)
     for h in range(nh):
         random_history(d, ctx.rng, ctx)
     if d.s:
@@ -410,7 +410,7 @@ def run(ctx):
     for e in (ev[5], ev[len(ev) // 2], ev[-2]):
         ctx.sample({k: e[k] for k in ('stmt', 'ok', 'code')} | {'obs': e['obs']['f'][e['n'] - 1]})
     judge(ctx, d, verdicts)
-    if not (stats['put'] and stats['get'] and stats['err63'] and stats['gap_puts'] and stats['reopen']):
+    if not (stats['put'] and stats['get'] and stats['err63'] and stats['gap_puts'] and stats['reopen']) and not ctx.violations:
         raise core.MachineryError('vacuous run: %s' % stats)
 
 
